@@ -48,6 +48,10 @@ NOT_A_PAIR = {
 # getters whose slice has an effect that does not alter what the pipe does
 # next, confirmed by reading: (function holding the store, record, reason)
 GET_EXCEPTIONS = {
+    'upipe_ts_decaps_control': [('upipe_ts_decaps_control', 'lost',
+                                'UPIPE_TS_DECAPS_GET_PACKETS_LOST is documented as read-and-reset ("packets lost since the last call ... the counter is reset '
+                                'to 0 each time", upipe_ts_decaps.h:44-46); `lost` is a statistic that is only ever added to and reported, it does not steer '
+                                'what the pipe does next, and it has no setter')],
     'upipe_seg_src_control': [('upipe_seg_src_check_src', None,
                               'upipe_seg_src_check_src() lazily creates the inner source pipe the command is forwarded to, for setters and getters '
                               'alike; it does nothing once the inner pipe exists (upipe_segment_source.c:258-276)')],
@@ -56,6 +60,8 @@ GET_EXCEPTIONS = {
 
 def fnmatch(cf, e):
     """the effect happens inside (a callee of) the excepted function"""
+    if cf[1] is not None and e.field != cf[1]:
+        return False
     return e.fn == cf[0] or any(v.split(':')[0] == cf[0] for v in e.via)
 
 
@@ -70,6 +76,17 @@ def setter_of(name):
 def dispatch_skip(fn):
     ci = control.command_param(fn)
     return lambda c: any(control.is_param_ref(a, fn, ci) for a in c.get('args', []))
+
+
+BRACKET_FNS = ('uatomic_fetch_add', 'uatomic_fetch_sub', 'urefcount_use', 'urefcount_release')
+
+
+def control_bracket(e):
+    """the use/release pair that upipe_control() puts around the handler of
+    the pipe it is applied to: balanced (C01 R-core checks the bracket), it
+    leaves the count as it found it"""
+    return e.fn in BRACKET_FNS and any(v.split(':')[0] in ('upipe_control_nodbg_va', 'upipe_control_va', 'upipe_control', 'upipe_use', 'upipe_release')
+                                       for v in e.via) and any(v.split(':')[0].startswith('upipe_control') for v in e.via)
 
 
 def private_origin(e):
@@ -128,7 +145,8 @@ def run(tier='quick', repo=None):
         'R-getset-agree (the field a getter copies out is one the paired setter stores), R-set-atomic (no constant error '
         'return of a setter is dominated by a store to the pipe). It does not decide that the data path honours the value.')
     rep.rule('R-get-pure', 'blocks reachable from a *_GET_* case label (and the code that runs after a dispatching helper handled the getter) contain, transitively, no store '
-             'whose address derives from the pipe parameter or a global (stores through va_arg out-pointers and to locals are allowed)')
+             'whose address derives from the pipe parameter or a global (stores through va_arg out-pointers and to locals are allowed; so is the balanced use/release '
+             'bracket that upipe_control() itself puts around a command sent to another pipe)')
     rep.rule('R-getset-agree', 'for each pair K_GET_X / K_SET_X handled by one control root: every private field copied out directly '
              'by the getter is stored somewhere in the setter slice')
     rep.rule('R-set-atomic', 'in a *_SET_* slice whose command has a paired getter, no return of an error constant other than '
@@ -136,15 +154,7 @@ def run(tier='quick', repo=None):
              'a field definitely stored before a local call that can fail is stored again before that failure is returned')
     dirs = QUICK_DIRS if tier == 'quick' else THOROUGH_DIRS
     units = list_units(repo, dirs)
-    prog = facts.load_program(units, repo=repo, tolerate=True)
-    if tier == 'thorough':
-        sunits = list_units(repo, STUB_DIRS)
-        if os.path.isdir(os.path.join(facts.VERIF, 'stubs', 'bitstream')):
-            sprog = facts.load_program(sunits, repo=repo, stubs=True, tolerate=True,
-                                       header_dirs=('upipe',))
-            for k, u in sprog.units.items():
-                prog.units[k] = u
-            prog.failed.update(sprog.failed)
+    prog = facts.load_with_stubs(units, list_units(repo, STUB_DIRS) if tier == 'thorough' else [], repo=repo)
     rep.units = sorted(prog.units)
     rep.not_analysed = {k: (v[0] if v else '') for k, v in prog.failed.items()}
     rep.nfuncs = sum(len(u.funcs) for u in prog.units.values()) + len(prog.hdr.funcs)
@@ -192,7 +202,7 @@ def run(tier='quick', repo=None):
                     for s in sl[k]:
                         own = s.blocks
                         eff, ind, ext, calls = E.block_effects(s.fn.unit, s.fn, own, skip=dispatch_skip(s.fn))
-                        bad = [e for e in eff if private_origin(e)]
+                        bad = [e for e in eff if private_origin(e) and not control_bracket(e)]
                         if bad and all(any(fnmatch(cf, e) for cf in GET_EXCEPTIONS.get(rname, ())) for e in bad):
                             rep.add('R-get-pure', '%s:%s' % (s.fn.name, k), OOS, s.fn.loc,
                                     why='listed exception: ' + GET_EXCEPTIONS[rname][0][2], effects=[e.describe() for e in bad][:3])
@@ -347,6 +357,60 @@ def can_fail(E, fn, depth=0):
     return r
 
 
+def _null_test(ctree, fn):
+    """(path, polarity) if the condition is a NULL test of an access path:
+    polarity True means the condition is true when the path IS null"""
+    from upv.facts import strip_expect, path_of as _p
+    n, neg = strip_expect(fn.resolve(ctree))
+    if not isinstance(n, dict):
+        return None
+    if n.get('k') == 'bin' and n.get('op') in ('==', '!=') and 'lhs' in n:
+        for a, b in ((n['lhs'], n['rhs']), (n['rhs'], n['lhs'])):
+            if const_of(b) == 0 and _p(a):
+                isnull = (n['op'] == '==')
+                return _p(a), (isnull != neg)
+        return None
+    pth = _p(n)
+    if pth:
+        return pth, neg          # `if (p)` is true when p is NOT null; negated: when null
+    return None
+
+
+def null_guarded_failures(E, g):
+    """if every constant failure return of g (other than ALLOC) is reached only
+    when one of its pointer parameters is NULL: the set of those parameter
+    indices; else None"""
+    from upv import pathrules as pr
+    ev = pr.Events(g)
+    pidx = {p['n']: i for i, p in enumerate(g.params)}
+    need = set()
+    for bid, st in g.all_stmts():
+        if st.get('k') != 'return' or not isinstance(st.get('e'), dict):
+            continue
+        en = enum_name(st['e'])
+        e0 = strip_all_casts(g.resolve(st['e']))
+        if isinstance(e0, dict) and e0.get('k') == 'cond':
+            return None
+        if isinstance(e0, dict) and e0.get('k') == 'call' and e0.get('fn'):
+            h = E.prog.lookup(g.unit, e0['fn'])
+            if h is not None and h.blocks and h.unit is g.unit and can_fail(E, h):
+                return None
+        if not (en and en.startswith('UBASE_ERR_') and en not in ERR_OK):
+            continue
+        found = []
+
+        def cm(ctree, pol, found=found):
+            t = _null_test(ctree, g)
+            if t and t[0] in pidx and t[1] == pol:
+                found.append(pidx[t[0]])
+                return True
+            return False
+        if not pr.control_dependent(g, ev, (bid, 0), cm):
+            return None
+        need.add(found[0])
+    return need
+
+
 # setters that by contract release the current resource before acquiring the new one:
 # a failure leaves the pipe without resource, not with the previous one
 NOT_ATOMIC_BY_CONTRACT = {
@@ -412,6 +476,21 @@ def check_composite(rep, E, fn, cmd, rname, seen):
             gpos = ev.find(isg)
             if not gpos:
                 continue
+            # a callee that only refuses NULL arguments cannot refuse a call
+            # made under a test that the argument is not NULL
+            ng = null_guarded_failures(E, g)
+            if ng is not None:
+                ok = True
+                for i in ng:
+                    ap = path_of(gcall['args'][i]) if i < len(gcall.get('args', [])) else None
+
+                    def cm(ctree, pol, ap=ap):
+                        t = _null_test(ctree, fn)
+                        return bool(t and ap and t[0] == ap and t[1] != pol)
+                    if not (ap and pr.control_dependent(fn, ev, (gpos[0][0], gpos[0][1]), cm)):
+                        ok = False
+                if ok:
+                    continue
             for f, stl in sorted(stores.items()):
                 isst = in_stmt([x for x in stl if not any(y is gcall for y in walk(x))])
                 # definitely stored before the fallible call
